@@ -524,6 +524,52 @@ fn eval_cli(c: &CliCase, scratch: &Scratch) -> Vec<Viol> {
     }
 }
 
+/// A projection given together with other `view` options: the axes named by the target are those that
+/// remain after marginalization, masking and normalizing come after the projection.
+fn eval_cli_cross(shape: &[usize], marg: Option<usize>, to: &[usize], mask: bool, normalize: bool, scratch: &Scratch) -> Option<Viol> {
+    let x = RefArray::from_fn(shape, |f, _| ((f * 7) % 11 + 1) as f64);
+    let input = text_of(&x);
+    let arg = join_usizes(to, ",");
+    let ms = marg.map(|a| a.to_string());
+    let mut a: Vec<&str> = vec!["view"];
+    if let Some(m) = &ms {
+        a.extend(["-m", m]);
+    }
+    a.extend(["--project-shape", &arg]);
+    if mask {
+        a.push("--mask-monomorphic");
+    }
+    if normalize {
+        a.push("--normalize");
+    }
+    a.extend(["--precision", "10"]);
+    let o = run_sfs(&a, Stdin::Bytes(input.as_bytes()), scratch);
+    let mut expect = match marg {
+        Some(m) => x.marginalize(&[m]),
+        None => x.clone(),
+    }
+    .project(to);
+    if mask {
+        let n = expect.data.len();
+        expect.data[0] = 0.0;
+        expect.data[n - 1] = 0.0;
+    }
+    if normalize {
+        let t = expect.sum();
+        for v in expect.data.iter_mut() {
+            *v /= t;
+        }
+    }
+    match parse_out(&o) {
+        Ok(got) if got.shape == expect.shape && got.data.iter().zip(&expect.data).all(|(g, e)| printed_ok(*g, *e, 10)) => None,
+        other => Some((
+            format!("C03|cli|project-with-other-options|{}{}{}", if marg.is_some() { "marginalize," } else { "" }, if mask { "mask," } else { "" }, if normalize { "normalize" } else { "" }),
+            format!("{a:?} on shape {shape:?} gave {other:?}, expected {:?} {:?}", expect.shape, expect.data),
+            J::obj([("kind", J::s("c03-cross")), ("shape", J::usizes(shape)), ("marg", marg.map_or(J::Null, J::u)), ("to", J::usizes(to)), ("mask", J::Bool(mask)), ("normalize", J::Bool(normalize))]),
+        )),
+    }
+}
+
 pub fn run(tier: Tier) -> i32 {
     let mut rep = Report::new("C03", tier, "exploration");
     rep.rule = "(i) every coefficient hypergeometric_pmf(N,K,n,k) for all 0<=K,n<=N, 0<=k<=n+1 up to the bound, plus a ladder of large N on a boundary grid, against an exact-integer / compensated-log reference; (ii) Spectrum::project of every basis vector of every shape in the bound to every admissible target (a linear map is decided by its basis images) plus a non-linear-looking ramp; (iii) laws (mass, non-negativity, bit-exact identity, two-step via every intermediate shape, commutation with marginalization, create-then-project); (iv) every invalid target in a box; (v) `sfs view --project-shape/-p`. Non-trivial = strictly smaller target with interior source index / interior coefficient.".into();
@@ -914,6 +960,42 @@ pub fn run(tier: Tier) -> i32 {
         exhaustive: true,
         extra: vec![],
     });
+    // projection together with the other view options (unequal axis lengths, every axis removed in turn)
+    {
+        let mut xj: Vec<(Vec<usize>, Option<usize>, Vec<usize>, bool, bool)> = Vec::new();
+        for sh in [vec![3usize, 5], vec![5, 3], vec![5, 3, 4], vec![2, 4, 3]] {
+            let mut margs: Vec<Option<usize>> = vec![None];
+            margs.extend((0..sh.len()).map(Some));
+            for m in margs {
+                let rest: Vec<usize> = sh.iter().enumerate().filter(|(a, _)| Some(*a) != m).map(|(_, n)| *n).collect();
+                for to in indices(&rest) {
+                    let to: Vec<usize> = to.iter().map(|t| t + 1).collect();
+                    // every target for two remaining axes, the corner targets for three
+                    if rest.len() >= 3 && !to.iter().zip(&rest).all(|(t, n)| *t == 1 || t == n || *t + 1 == *n) {
+                        continue;
+                    }
+                    for (mask, normalize) in [(false, false), (true, false), (false, true), (true, true)] {
+                        if m.is_none() && !mask && !normalize {
+                            continue;
+                        }
+                        xj.push((sh.clone(), m, to.clone(), mask, normalize));
+                    }
+                }
+            }
+        }
+        let res = par_map(xj.len(), |i| eval_cli_cross(&xj[i].0, xj[i].1, &xj[i].2, xj[i].3, xj[i].4, &scratch));
+        for v in res.into_iter().flatten() {
+            rep.violation(v.0, v.1, v.2);
+        }
+        rep.part(Part {
+            name: "cli: projection together with other view options".into(),
+            evaluations: xj.len() as u64,
+            nontrivial: xj.len() as u64,
+            note: "shapes 3x5, 5x3, 5x3x4, 2x4x3 x {no axis, each axis} marginalized x every target of the remaining axes (corner targets for three axes) x {mask, normalize, both, neither}: the result is normalize(mask(project(marginalize(x))))".into(),
+            exhaustive: true,
+            extra: vec![],
+        });
+    }
     rep.assumptions = vec![
         "reference hyper_exact: exact u128 binomials for N<=120, compensated ln-factorial sums above (relative accuracy ~1e-11)".into(),
         "comparison tolerance |x-r| <= 1e-8|r| + 1e-13 separates rounding from a mis-indexed weight (DESIGN 2.9)".into(),
@@ -979,6 +1061,12 @@ pub fn replay(case: &J) -> Option<Vec<String>> {
                 Ok(Ok(g)) if arr_close(&g, &expect) => vec![],
                 other => vec![format!("C03|lib|projection-depends-on-previous-call :: {other:?}, expected {:?}", expect.data)],
             })
+        }
+        "c03-cross" => {
+            let scratch = Scratch::new("c03r");
+            let b = |k: &str| matches!(case.get(k), Some(J::Bool(true)));
+            let marg = case.get("marg").and_then(|m| m.as_i64()).map(|m| m as usize);
+            Some(eval_cli_cross(&case.get("shape")?.as_usizes()?, marg, &case.get("to")?.as_usizes()?, b("mask"), b("normalize"), &scratch).into_iter().map(|(k, w, _)| format!("{k} :: {w}")).collect())
         }
         "c03-cli" => {
             let c = CliCase {
